@@ -2,14 +2,15 @@ import CklVerif.Lemmas.C20EvalStep
 
 /-! C20 (evaluator part) — induction step for `callFn`, `sorted`, `require`. -/
 namespace Ckl
+attribute [local irreducible] ValsOK DictOK PairsOK
 set_option linter.unusedSectionVars false
 set_option linter.unusedVariables false
 
 variable {P : Pos → Prop} {ld : Loader} {fuel : Nat}
 
 theorem callFn_step (ctx : Ctx P ld) (ih : PAll P ld fuel) :
-    ∀ fn bound env pos, P pos → POK P (callFn ld (fuel+1) fn bound env pos) := by
-  intro fn bound env pos hp
+    ∀ fn bound env pos, P pos → DictOK P bound → POK P (callFn ld (fuel+1) fn bound env pos) := by
+  intro fn bound env pos hp hbound
   ih_intro ih ctx
   cases fn
   case closure a =>
@@ -28,46 +29,53 @@ theorem callFn_step (ctx : Ctx P ld) (ih : PAll P ld fuel) :
     intro s hs
     split
     · rename_i m heq
-      exact PosOK.callPure _ _ _ (fun _ => EP.nil hp) _ heq
+      refine PosOK.callPure _ hbound ?_ (fun _ => EP.nil hp) _ heq
+      intro v hv
+      unfold div0Value at hv
+      split at hv
+      · cases hv; exact hs.lookup (by assumption)
+      · cases hv
     · posok!
   all_goals (unfold Ckl.callFn; posok!)
 
 theorem nativeSorted_step (ctx : Ctx P ld) (ih : PAll P ld fuel) :
-    ∀ bound env pos, P pos → POK P (nativeSorted ld (fuel+1) bound env pos) := by
-  intro bound env pos hp
+    ∀ bound env pos, P pos → DictOK P bound → POK P (nativeSorted ld (fuel+1) bound env pos) := by
+  intro bound env pos hp hbound
   ih_intro ih ctx
   unfold Ckl.nativeSorted
   posok!
 
 theorem sortedOuter_step (ctx : Ctx P ld) (ih : PAll P ld fuel) :
-    ∀ cmp key senv pos arr i, P pos → POK P (sortedOuter ld (fuel+1) cmp key senv pos arr i) := by
-  intro cmp key senv pos arr i hp
+    ∀ cmp key senv pos arr i, P pos → ValsOK P arr.toList →
+      POK P (sortedOuter ld (fuel+1) cmp key senv pos arr i) := by
+  intro cmp key senv pos arr i hp harr
   ih_intro ih ctx
   unfold Ckl.sortedOuter
   posok!
 
 theorem sortedInner_step (ctx : Ctx P ld) (ih : PAll P ld fuel) :
-    ∀ cmp key senv pos arr v j, P pos → POK P (sortedInner ld (fuel+1) cmp key senv pos arr v j) := by
-  intro cmp key senv pos arr v j hp
+    ∀ cmp key senv pos arr v j, P pos → ValsOK P arr.toList → ValOK P v →
+      POK P (sortedInner ld (fuel+1) cmp key senv pos arr v j) := by
+  intro cmp key senv pos arr v j hp harr hv
   ih_intro ih ctx
   cases j <;> unfold Ckl.sortedInner <;> posok!
 
 theorem call1_step (ctx : Ctx P ld) (ih : PAll P ld fuel) :
-    ∀ f x env pos, P pos → POK P (call1 ld (fuel+1) f x env pos) := by
-  intro f x env pos hp
+    ∀ f x env pos, P pos → ValOK P x → POK P (call1 ld (fuel+1) f x env pos) := by
+  intro f x env pos hp hx
   ih_intro ih ctx
   unfold Ckl.call1
   posok!
 
 theorem call2_step (ctx : Ctx P ld) (ih : PAll P ld fuel) :
-    ∀ f x y env pos, P pos → POK P (call2 ld (fuel+1) f x y env pos) := by
-  intro f x y env pos hp
+    ∀ f x y env pos, P pos → ValOK P x → ValOK P y → POK P (call2 ld (fuel+1) f x y env pos) := by
+  intro f x y env pos hp hx hy
   ih_intro ih ctx
   unfold Ckl.call2
   posok!
 
 theorem mapState_POK {m : EvalM EnvId} (h : POK P m) (pop : State → State)
-    (hpop : ∀ s, (pop s).heap = s.heap) :
+    (hpop : ∀ s, (pop s).heap = s.heap ∧ (pop s).frames = s.frames) :
     POK P (fun s1 => match m s1 with
       | .ok e s2 => .ok e (pop s2)
       | .err v msg p t s2 => .err v msg p t (pop s2)
@@ -76,9 +84,9 @@ theorem mapState_POK {m : EvalM EnvId} (h : POK P m) (pop : State → State)
   intro s1 hs1
   have := h.run s1 hs1
   cases hr : m s1 with
-  | ok a s2 => rw [hr] at this; exact StOK.of_heap_eq (hpop _) this
-  | err v msg p t s2 => rw [hr] at this; exact ⟨this.1, StOK.of_heap_eq (hpop _) this.2⟩
-  | fail f s2 => rw [hr] at this; exact StOK.of_heap_eq (hpop _) this
+  | ok a s2 => rw [hr] at this; exact ⟨trivial, StOK.of_eq (hpop _).1 (hpop _).2 this.2⟩
+  | err v msg p t s2 => rw [hr] at this; exact ⟨this.1, StOK.of_eq (hpop _).1 (hpop _).2 this.2⟩
+  | fail f s2 => rw [hr] at this; exact StOK.of_eq (hpop _).1 (hpop _).2 this
 
 theorem evalRequire_step (ctx : Ctx P ld) (ih : PAll P ld fuel) :
     ∀ env spec name unq syms pos, NodeOK P spec → P pos →
@@ -86,10 +94,10 @@ theorem evalRequire_step (ctx : Ctx P ld) (ih : PAll P ld fuel) :
   intro env spec name unq syms pos hspec hp
   ih_intro ih ctx
   have hm := fun env ident file => mapState_POK (ih.loadModule env ident file pos hp)
-    (fun s => { s with modstack := s.modstack.dropLast }) (fun _ => rfl)
+    (fun s => { s with modstack := s.modstack.dropLast }) (fun _ => ⟨rfl, rfl⟩)
   unfold Ckl.evalRequire
   posok!
-  all_goals exact hm _ _ _
+  all_goals first | exact hm _ _ _ | skip
 
 theorem loadModule_step (ctx : Ctx P ld) (ih : PAll P ld fuel) :
     ∀ env ident modulefile pos, P pos → POK P (loadModule ld (fuel+1) env ident modulefile pos) := by
@@ -98,6 +106,5 @@ theorem loadModule_step (ctx : Ctx P ld) (ih : PAll P ld fuel) :
   have hl := ctx.loader
   unfold Ckl.loadModule
   posok!
-  exact ih.eval _ _ (hl _ _ (by assumption))
 
 end Ckl
